@@ -32,7 +32,14 @@ echo "== existing tests of touched packages with patch"
 pkgs=$(git diff --name-only | xargs -n1 dirname | sort -u | sed 's|^|./|')
 go test -count=1 -vet=off -timeout 20m $pkgs 2>&1 | grep -v "^ok" | grep -- "--- FAIL\|^FAIL\|panic" | grep -v "TestNetDialCancelContext\|TestNetDialTimeout\|TestRelayStalledConnection\|TestRelayRaceCompletionAndTimeout\|TestCancelWithoutSendCancelOnContextCanceled\|TestRetryNetConnect" | head -20 > /tmp/seedfails-$P-$N.txt
 cat /tmp/seedfails-$P-$N.txt
-fails=$(grep -c -- "--- FAIL" /tmp/seedfails-$P-$N.txt)
+# a test that fails in the package run is re-run alone (3 times): load-induced flakes pass then
+fails=0
+for t in $(grep -- "^--- FAIL" /tmp/seedfails-$P-$N.txt | awk '{print $3}' | sort -u); do
+  okc=0
+  for k in 1 2 3; do go test -count=1 -vet=off -run "^$t\$" $pkgs >/dev/null 2>&1 && okc=$((okc+1)); done
+  echo "re-run of $t alone: $okc/3 passed"
+  [ $okc -ge 2 ] || fails=$((fails+1))
+done
 cd /; git -C /repo worktree remove --force $WT
 echo "clean-demo-exit=$clean patched-demo-exit=$bad existing-test-failures=$fails"
 if [ "$clean" = 0 ] && [ "$bad" != 0 ] && [ "$fails" = 0 ]; then echo CONFIRMED; else echo NOT-CONFIRMED; fi
